@@ -164,7 +164,7 @@ def evaluate(ctx, rng, tier, focus, budget, broken):
             ncoord += 1
             if d > 1e-12:
                 viol_.append(viol("vertexToLatLng is not a corner of the cell's boundary (1e-12 rad)", f"v2ll {gen.hx(v)}", "a boundary vertex", f"distance {d:.3g}"))
-            elif len(bd) == (5 if pent else 6) and gc_dist(p, bd[i]) > 1e-12:
+            elif len(bd) == (5 if pent else 6) and i < len(bd) and gc_dist(p, bd[i]) > 1e-12:
                 viol_.append(viol("vertexToLatLng(slot i) is not the i-th corner", f"v2ll {gen.hx(v)}", f"corner {i}", "another corner"))
     return {"evaluations": len(ops) + len(ops2) + len(allv) + len(ops4) + len(ops5), "violations": viol_[:20],
             "distinct": ops,
